@@ -37,6 +37,11 @@ var channelFuncs = map[string]LGFunction{
 
 func channelMake(L *LState) int {
 	buffer := L.OptInt(1, 0)
+	if buffer < 0 || buffer > MaxArrayIndex {
+		// make(chan) panics for some of these sizes and ends the whole process (an
+		// unrecoverable out-of-memory throw) for the others
+		L.ArgError(1, "buffer size out of range")
+	}
 	L.Push(LChannel(make(chan LValue, buffer)))
 	return 1
 }
